@@ -67,3 +67,16 @@ Lemma static_binds_l t r c f s : wf t = true -> get_class t r = Some c -> static
 Proof. intros W Hr. destruct (wf_parts t W) as (H1 & H2 & H3). exact (via_static_l t H1 H2 H3 r c f s Hr). Qed.
 Lemma like_structural_l t n c T : wf t = true -> get_class t n = Some c -> like t n T = like_spec t n T.
 Proof. intros W Hn. destruct (wf_parts t W) as (H1 & H2 & H3). exact (like_l t H1 H2 H3 n c T Hn). Qed.
+
+Lemma parent_then_static_l t r c f g s d p : wf t = true -> get_class t r = Some c -> static_name t s = true ->
+  resolve t r f = Some d -> parent_of t d = Some p ->
+  via_parent_static t r f g s = Ok (match resolve t p g with Some _ => resolve t r s | None => None end).
+Proof. intros W Hr. destruct (wf_parts t W) as (H1 & H2 & H3). exact (via_parent_static_l t H1 H2 H3 r c f g s d p Hr). Qed.
+Lemma parent_then_self_l t r c f g s d p : wf t = true -> get_class t r = Some c -> static_name t s = true ->
+  resolve t r f = Some d -> parent_of t d = Some p ->
+  via_parent_self t r f g s = Ok (match resolve t p g with Some e => resolve t e s | None => None end).
+Proof. intros W Hr. destruct (wf_parts t W) as (H1 & H2 & H3). exact (via_parent_self_l t H1 H2 H3 r c f g s d p Hr). Qed.
+Lemma parent_then_parent_l t r c f g h d p e p' : wf t = true -> get_class t r = Some c ->
+  resolve t r f = Some d -> parent_of t d = Some p -> resolve t p g = Some e -> parent_of t e = Some p' ->
+  via_parent_parent t r f g h = Ok (resolve t p' h).
+Proof. intros W Hr. destruct (wf_parts t W) as (H1 & H2 & H3). exact (via_parent_parent_l t H1 H2 H3 r c f g h d p e p' Hr). Qed.
